@@ -120,6 +120,45 @@ impl Checker for C14 {
                 }
             }
         }
+        // a write to f that failed because of one storage fault, retried by the caller, then flushed; afterwards
+        // another file is created and written. f must keep exactly the flushed content in the final image.
+        if let Some(Op::WriteAll { h: 0, len }) = ops.last() {
+            let n = ops.len();
+            if n <= 4 && ex.calls_last <= 400 && matches!(ex.outs.last(), Some(Ok(Out::Progress { err: None, .. }))) {
+                let mut ops2 = ops.to_vec();
+                ops2.push(Op::WriteAll { h: 0, len: *len });
+                ops2.push(Op::Flush { h: 0 });
+                ops2.push(Op::CreateFile { base: DirRef::Root, path: "g".into(), keep: Some(1) });
+                ops2.push(Op::WriteAll { h: 1, len: 2 * 512 + 1 });
+                ops2.push(Op::Flush { h: 1 });
+                for k in 1..=ex.calls_last {
+                    let plan = Plan { fault: Some((k, 0x00FB_0000 + k as u32)), fault_op: Some(n - 1), ..self.plan() };
+                    let fx = sess::run(cfg, &ops2, &plan);
+                    if fx.panic.is_some() || fx.fired_early.is_none() {
+                        continue;
+                    }
+                    // the faulted write reports how much it accepted; the model follows it. Only histories in which
+                    // the retry and both flushes succeeded are judged.
+                    let ok_after = (n..ops2.len()).all(|i| match fx.outs.get(i) {
+                        Some(Ok(Out::Progress { err, .. })) => err.is_none(),
+                        Some(Ok(_)) => true,
+                        _ => false,
+                    });
+                    if !ok_after {
+                        continue;
+                    }
+                    let Some(fnode) = fx.model.nodes.values().find(|x| x.given == "f") else { continue };
+                    self.ctr.crash_images.fetch_add(1, Ordering::Relaxed);
+                    let want2 = fnode.data.clone();
+                    let r = check_image(cfg, image_from(cfg, &fx.log, &|_| true), &want2, "write-retried-after-storage-fault");
+                    *self.ctr.classes.lock().unwrap().entry(format!("write-retried-after-storage-fault:{}", if r.is_some() { "LOST" } else { "intact" })).or_default() += 1;
+                    if let Some((sig, msg)) = r {
+                        v.push((sig, format!("{msg} [device call {k}/{} of {:?} failed once; retried, flushed; then g was created and written]", ex.calls_last, ops[n - 1])));
+                        break;
+                    }
+                }
+            }
+        }
         let Some(p) = p else { return v };
         let Some(fnode) = ex.model.nodes.values().find(|n| n.given == "f") else { return v };
         let want = fnode.data.clone();
@@ -210,6 +249,7 @@ impl Checker for C14 {
                 run("retry-after-failed-flush-epoch-loss", image_from(cfg, flog, &|i| i < barrier), &mut v, detail);
             }
         }
+        drop(run);
         let mut s = self.ctr.samples.lock().unwrap();
         if s.len() < 4 && positions.len() > 1 {
             s.push(json!({"config": cfg.name, "history": ops.iter().map(|o| format!("{o:?}")).collect::<Vec<_>>(), "durability_point_op": p, "crash_positions_in_last_op": positions.len(), "log_records": log.len()}));
